@@ -1059,7 +1059,7 @@ func c09AssertedTypes(fn *ssa.Function, x ssa.Value) []string {
 }
 
 func c09Accept(r *fw.Run, p *fw.Program) {
-	ru := r.Rule("C09.accept", "toBitReaderEx accepts exactly {ToBinary, string, int, float64, *big.Int, []any} and returns an error otherwise; no (nil,nil) return; array members are converted with inArray=true and top-level values with false; the byte/number split is on inArray; toBinary and toBigInt dispatch as specified", 12)
+	ru := r.Rule("C09.accept", "toBitReaderEx accepts exactly {ToBinary, string, int, float64, *big.Int, []any} and returns an error otherwise; no (nil,nil) return; array members are converted with inArray=true and top-level values with false; the byte/number split is on inArray: every successful result of the number arm is either under !inArray or the one-byte reader under inArray (a member, 0 included, is always one byte); toBinary and toBigInt dispatch as specified", 13)
 	fn := c09Fn(ru, p, "pkg/interp.toBitReaderEx")
 	if fn != nil {
 		v := fn.Params[0]
@@ -1154,6 +1154,52 @@ func c09Accept(r *fw.Run, p *fw.Program) {
 		var inArray ssa.Value = fn.Params[1]
 		for _, c := range c09CallsTo(fn, "(*math/big.Int).Bytes") {
 			ru.Check(c09GuardIs(c.Block(), inArray, false), "toBitReaderEx:number-split", p.Rel(c.Pos()), "minimal-width number conversion only when !inArray", "minimal-width number conversion (bi.Bytes()) is reachable for array members / not for top-level numbers")
+		}
+		// an array member that is a number is ALWAYS one byte: in the number arm (everything after
+		// toBigInt(v)) each successful return is either under !inArray (top-level number: minimal
+		// width, zero = one bit) or, under inArray, the one-byte reader of the member itself
+		{
+			var big *ssa.Call
+			for _, c := range c09CallsTo(fn, fw.Mod+"/pkg/interp.toBigInt") {
+				if c.Call.Args[0] == ssa.Value(v) {
+					big = c
+				}
+			}
+			if big == nil {
+				ru.Undecided("toBitReaderEx:member-byte", p.Rel(fn.Pos()), "toBigInt(v) not found in the number arm")
+			} else {
+				var byteRd ssa.Value
+				fw.EachInstr(fn, func(ins ssa.Instruction) {
+					cv, ok := ins.(*ssa.Convert)
+					if !ok || !c09IsByteType(cv.Type()) || c09IsByteType(cv.X.Type()) || !c09GuardIs(cv.Block(), inArray, true) {
+						return
+					}
+					if rd, _ := c09ByteReaderOf(cv, 0); rd != nil {
+						byteRd = rd
+					}
+				})
+				okMB, whyMB, nTop, nMem := true, "", 0, 0
+				for _, rt := range c09Returns(fn) {
+					if len(rt.Results) != 2 || !c09IsNilConst(rt.Results[1]) {
+						continue
+					}
+					if rt.Block() != big.Block() && !big.Block().Dominates(rt.Block()) {
+						continue
+					}
+					switch {
+					case c09GuardIs(rt.Block(), inArray, false):
+						nTop++
+					case c09GuardIs(rt.Block(), inArray, true):
+						nMem++
+						if byteRd == nil || c09StripIface(rt.Results[0]) != byteRd {
+							okMB, whyMB = false, "under inArray a number is answered with something other than the one-byte reader of the member"
+						}
+					default:
+						okMB, whyMB = false, "a successful conversion of a number ("+p.Rel(rt.Pos())+") is reachable both for array members and for top-level numbers: a member (e.g. 0) would not become exactly one byte"
+					}
+				}
+				ru.Check(okMB && nTop >= 2 && nMem >= 1, "toBitReaderEx:member-byte", p.Rel(big.Pos()), fmt.Sprintf("%d top-level results under !inArray, %d member result (the byte) under inArray", nTop, nMem), "number arm of toBitReaderEx: "+whyMB)
+			}
 		}
 		// multi reader of members in order: NewMultiReader(rr...) where rr is appended in a range loop
 		okMR := false
